@@ -162,7 +162,19 @@ pub fn record_schema(a: &Args) {
         // --scale 1: the first session is an element seen 10 050 times, before and after documents whose rows differ in
         // which children they have (a count threshold in the bookkeeping shows here)
         let scale_session = a.num("scale", 0) == 1 && s == 0;
-        let boundary: Option<Vec<Vec<u8>>> = if scale_session {
+        // the first sessions are built around the constants of the code under test: each as the document element and as a
+        // nested element, with repeated, optional and text children (a special case written for a literal shows here)
+        let lit_names: Vec<&String> = literals().iter().filter(|l| is_xml_name(l)).collect();
+        let literal_session: Option<Vec<Vec<u8>>> = if !boundary_only && s < lit_names.len() {
+            let l = lit_names[s];
+            Some(vec![format!("<{0} a=\"v001\"><x>t002</x><x>t003</x><{0}><y/><y/></{0}></{0}>", l).into_bytes(),
+                      format!("<{0}><x>t001</x><z><{0}><y/></{0}><{0} b=\"v002\"><y/><y/><w/></{0}></z></{0}>", l).into_bytes()])
+        } else {
+            None
+        };
+        let boundary: Option<Vec<Vec<u8>>> = if literal_session.is_some() {
+            literal_session
+        } else if scale_session {
             let rows = |k: usize| -> String { (0..k).map(|_| "<row><id/><note/></row>").collect() };
             Some(vec!["<a><row><id/><note/></row><row><id/></row></a>".as_bytes().to_vec(),
                       format!("<a>{}</a>", rows(10_050)).into_bytes(),
@@ -170,7 +182,7 @@ pub fn record_schema(a: &Args) {
         } else if s % 8 == 7 || boundary_only {
             let b = if boundary_only { s } else { s / 8 };
             // (one chain in six is deeper than 1000 levels: 1001 or 1025)
-            let n = if b % BOUNDARY_KINDS <= 1 && (b / BOUNDARY_KINDS) % 6 == 5 { [1001usize, 1025][(b / BOUNDARY_KINDS / 6) % 2] }
+            let n = if b % BOUNDARY_KINDS <= 1 && (b / BOUNDARY_KINDS) % 3 == 2 { [1025usize, 1001][(b / BOUNDARY_KINDS / 3) % 2] }
                     else { BOUNDARIES[(b / BOUNDARY_KINDS + b) % BOUNDARIES.len()] };
             Some(boundary_session(&mut r, b, n))
         } else {
@@ -187,6 +199,11 @@ pub fn record_schema(a: &Args) {
             r.shuffle(&mut pool);
             pool.truncate(k);
             g.names = pool;
+            // every other session over rich names has a constant of the code under test among its names
+            let lits: Vec<&String> = literals().iter().filter(|l| is_xml_name(l)).collect();
+            if s % 3 == 0 && !lits.is_empty() && r.chance(1, 2) {
+                g.names.push((*r.pick(&lits)).clone());
+            }
         }
         let root = r.pick(&g.names).clone();
         let ndocs = match &boundary { Some(b) => b.len(), None => 1 + r.below(4) };
@@ -239,11 +256,11 @@ pub fn record_schema(a: &Args) {
         }
         // the rendering of the parsed tree (with whatever text content the documents had) for RenderTrace
         // (names outside the model alphabet — damaged documents — cannot be judged by the renderer specification)
-        // one tree in five loses one to three children of its document element through the public API before it is rendered
+        // every other tree loses two to four children of its document element through the public API before it is rendered
         // (what is left must still come in the order of first appearance)
-        if s % 5 == 4 {
+        if s % 2 == 1 {
             if let Some(tree) = sess.tree.as_mut() {
-                for _ in 0..(1 + r.below(3)) {
+                for _ in 0..(2 + r.below(3)) {
                     let names: Vec<String> = tree.children().iter().map(|c| c.inner_t().name.clone()).collect();
                     if names.len() > 1 {
                         let victim = names[r.below(names.len())].clone();
